@@ -120,6 +120,9 @@ class Wavefunction:
 
     def __setitem__(self, idx, val):
         old_val = self._amplitude_vector[idx]
+        if isinstance(old_val, np.ndarray):
+            # numpy indexing may return a view; copy it so the rollback restores it
+            old_val = old_val.copy()
         self._amplitude_vector[idx] = val
 
         try:
